@@ -126,9 +126,9 @@ inline void run_group(const ApiGroup& G, const BoxOpts& o, const std::function<v
       }
       break;
     }
-    case F_SMALL: { ApiCase c = gen_small_product(mod, N, cfg); fn(c); break; }
+    case F_SMALL: { ApiCase c = gen_small_product(mod, N, cfg); fn(c); ApiCase c2 = gen_small_product(mod, N, cfg, 2); fn(c2); break; }
     case F_VMP: {
-      if (G.sub != 0) for (auto& q : std::vector<std::vector<uint64_t>>{{7, 9, 8, 9}, {9, 7, 10, 5}, {1, 12, 1, 11}, {12, 1, 13, 1}, {8, 8, 8, 7}}) {
+      if (G.sub != 0) for (auto& q : std::vector<std::vector<uint64_t>>{{7, 9, 8, 9}, {9, 7, 10, 5}, {1, 12, 1, 11}, {12, 1, 13, 1}, {8, 8, 8, 7}, {6, 6, 3, 5}, {5, 8, 2, 7}, {4, 4, 1, 3}, {3, 6, 2, 3}}) {
         VmpShape s; s.N = N; s.nrows = q[0]; s.ncols = q[1]; s.as = q[2]; s.rs = q[3]; s.asl = N + 3; s.variant = G.sub; ApiCase c = gen_vmp(mod, s, cfg); fn(c);
       }
       for (uint64_t nr = 1; nr <= o.vmp_max_dim; ++nr) for (uint64_t nc = 1; nc <= o.vmp_max_dim; ++nc) {
